@@ -91,6 +91,12 @@ def respond (content : Bytes) (hdr : Option Bytes) : Res :=
 /-- Path resolution of the static modifier: `filepath.Join(path.Clean(root), filepath.Clean(urlPath))`. -/
 def resolve (root urlPath : Bytes) : Bytes := join2 (clean root) (clean urlPath)
 
+/-- `static.Modifier` with one explicit path mapping `key ↦ value` (`SetExplicitPathMappings`): the
+mapping applies when the *cleaned* request path is exactly the key; the file is then the value joined
+under the root, whatever else the request says. Otherwise the request path is resolved as usual. -/
+def resolveMapped (root key value urlPath : Bytes) : Bytes :=
+  if clean urlPath = key then join2 (clean root) value else resolve root urlPath
+
 /-! ### One modifier instance serving a file whose content changes between requests
 
 `static.Modifier` opens and stats the file on every request and keeps nothing about it, so the state
